@@ -104,6 +104,19 @@ def extract(ctx):
     recvs = [n for n in ast.walk(rd) if isinstance(n, ast.Call) and ast.unparse(n.func).endswith('.recv')]
     X.expect(len(recvs) == 1 and len(recvs[0].args) == 1, '_readData: expected one recv(arg) call')
     g.string('sockRecvArg', ast.unparse(recvs[0].args[0]))
+    # the transport object's state: which attributes each method stores (a receive buffer kept on the object would
+    # survive disconnect()/connect())
+    stores = []
+    for fn in t.body:
+        if isinstance(fn, ast.FunctionDef):
+            tg = sorted({ast.unparse(x) for n in ast.walk(fn) for x in ((n.targets if isinstance(n, ast.Assign) else [n.target] if isinstance(n, (ast.AugAssign, ast.AnnAssign)) else []))
+                         if ast.unparse(x).startswith('self.')})
+            muts = sorted({ast.unparse(n.func.value) for n in ast.walk(fn) if isinstance(n, ast.Call) and isinstance(n.func, ast.Attribute)
+                           and n.func.attr in ('extend', 'append', 'clear', 'pop', 'insert', 'remove') and ast.unparse(n.func.value).startswith('self.')})
+            dels = sorted({ast.unparse(x) for n in ast.walk(fn) if isinstance(n, ast.Delete) for x in n.targets if ast.unparse(x).startswith('self.')})
+            stores.append('%s: %s' % (fn.name, ','.join(tg + ['mut ' + m for m in muts] + ['del ' + d for d in dels]) or '-'))
+    g.strings('sockObjectState', stores)
+    g.strings('sockClassLevel', [ast.unparse(n) for n in t.body if not isinstance(n, (ast.FunctionDef, ast.Expr))])
     rp = X.find(t, 'readPacket')
     sc = X.struct_calls(rp)
     X.expect(len(sc) == 1, 'readPacket: expected one struct call')
@@ -157,6 +170,58 @@ class FakeSocket:
     def send(self, data):
         self.sent.append(bytes(data))
 
+    def connect(self, addr):
+        self.connected_to = addr
+
+    def shutdown(self, how):
+        pass
+
+    def close(self):
+        self.closed = True
+
+
+class _SocketFactory:
+    """stands in for the `socket` module inside cflib.cpx.transports: hands out the prepared fake sockets in order"""
+    AF_INET = SOCK_STREAM = SHUT_WR = 0
+
+    def __init__(self, socks):
+        self.socks = list(socks)
+
+    def socket(self, *a):
+        return self.socks.pop(0)
+
+
+def make_transport(socks):
+    """a REAL SocketTransport built through its own __init__/connect() on fake sockets"""
+    import contextlib
+    import io
+    _, tr = _cpx()
+    saved = tr.socket
+    tr.socket = _SocketFactory(socks)
+    try:
+        with contextlib.redirect_stdout(io.StringIO()):
+            t = tr.SocketTransport('127.0.0.1', 5000)
+    finally:
+        fac = tr.socket
+        tr.socket = saved
+    t._verif_factory = fac
+    return t
+
+
+def reconnect(t):
+    """disconnect() + connect() on the same transport object (next prepared socket)"""
+    import contextlib
+    import io
+    _, tr = _cpx()
+    saved = tr.socket
+    tr.socket = t._verif_factory
+    try:
+        with contextlib.redirect_stdout(io.StringIO()):
+            t.disconnect()
+            t.connect()
+    finally:
+        tr.socket = saved
+
 
 def _cpx():
     import logging
@@ -193,10 +258,20 @@ def real_unwire(raw):
         return 'err ' + exc_enum(e)
 
 
-def real_read_packets(chunks, n):
-    _, tr = _cpx()
-    t = tr.SocketTransport.__new__(tr.SocketTransport)
-    t._socket = FakeSocket(chunks)
+def real_read_packets(chunks, n, before=None):
+    """read n packets through a real SocketTransport.  `before` = (chunks1, k1): first read k1 packets from an
+    earlier connection on the SAME transport object (possibly leaving bytes unread / a packet half read),
+    then disconnect() + connect() and read from the new connection only."""
+    if before is not None:
+        t = make_transport([FakeSocket(before[0]), FakeSocket(chunks)])
+        for _ in range(before[1]):
+            try:
+                t.readPacket()
+            except Exception:
+                break
+        reconnect(t)
+    else:
+        t = make_transport([FakeSocket(chunks)])
     out = []
     for _ in range(n):
         try:
@@ -216,8 +291,7 @@ def real_read_packets(chunks, n):
 
 def real_frame(src, dst, fn, last, data):
     cpx, tr = _cpx()
-    t = tr.SocketTransport.__new__(tr.SocketTransport)
-    t._socket = FakeSocket([])
+    t = make_transport([FakeSocket([])])
     try:
         p = cpx.CPXPacket(function=cpx.CPXFunction(fn), destination=cpx.CPXTarget(dst), source=cpx.CPXTarget(src), data=bytearray(data))
         p.lastPacket = last
@@ -311,9 +385,21 @@ def real_router_stream(regs, chunks):
     r = cpx.CPXRouter.__new__(cpx.CPXRouter)
     r._rxQueues = {}
     r._connected = True
-    t = tr.SocketTransport.__new__(tr.SocketTransport)
+    sock = StreamSocket(chunks, r, None)
+    t = make_transport([sock])
+    sock.transport = t
     r._transport = t
-    t._socket = StreamSocket(chunks, r, t)
+    # guard against a read loop that spins without consuming the stream (would hang the check)
+    budget = [4 * (sum(len(c) for c in chunks) + 4)]
+    real_read = t.readPacket
+
+    def counted_read():
+        budget[0] -= 1
+        if budget[0] < 0:
+            r._connected = False
+            raise KeyboardInterrupt('router loop spins without consuming the stream')
+        return real_read()
+    t.readPacket = counted_read
     died = None
     with contextlib.redirect_stdout(io.StringIO()), contextlib.redirect_stderr(io.StringIO()):
         for f in regs:
@@ -462,6 +548,20 @@ def gen_cases(ctx):
         line = 'read %d %s' % (npk, ','.join(hexs(c) for c in chunks))
         cases.append(('read', line, lambda c=chunks, n=npk: real_read_packets(c, n),
                       {'op': 'read', 'len': len(stream), 'cuts': pts[:8]}, ('readr', stream, tuple(pts))))
+    # reconnect on the same transport object: whatever the old connection left unread must not leak into the new one
+    for k in range(300 if thorough else 60):
+        s1, n1 = mkstream(rng.choice([1, 2, 3]), rng.choice([0, 3, 20]))
+        cutoff = rng.choice([len(s1), rng.randrange(0, len(s1) + 1), max(0, len(s1) - 1), 1])   # link may drop mid-packet
+        s1 = s1[:cutoff]
+        pts1 = sorted({rng.randrange(1, len(s1)) for _ in range(rng.choice([0, 1, 4]))} if len(s1) > 1 else set())
+        ch1 = [s1[a:b] for a, b in zip([0] + pts1, pts1 + [len(s1)])] if s1 else []
+        k1 = rng.randrange(0, n1 + 1)
+        s2, n2 = mkstream(rng.choice([1, 2, 3]), rng.choice([0, 3, 40]))
+        pts2 = sorted({rng.randrange(1, len(s2)) for _ in range(rng.choice([0, 2, 6]))} if len(s2) > 1 else set())
+        ch2 = [s2[a:b] for a, b in zip([0] + pts2, pts2 + [len(s2)])]
+        line = 'read %d %s' % (n2, ','.join(hexs(c) for c in ch2))
+        cases.append(('reconnect', line, lambda c=ch2, n=n2, b=(ch1, k1): real_read_packets(c, n, before=b),
+                      {'op': 'reconnect', 'old_stream': s1.hex(), 'old_read': k1, 'new_len': len(s2)}, ('reconnect', s1, k1, s2, tuple(pts2))))
     # router
     for k in range(400 if thorough else 120):
         script = []
@@ -559,8 +659,7 @@ def search(ctx):
         for _ in range(rng.choice([1, 2, 3, 5])):
             pk.append((rng.choice(TARGETS), rng.choice(TARGETS), rng.choice(FUNCS), rng.random() < 0.5,
                        bytes(rng.randrange(256) for _ in range(rng.choice([0, 1, 2, 5, 40])))))
-        t = tr.SocketTransport.__new__(tr.SocketTransport)
-        t._socket = FakeSocket([])
+        t = make_transport([FakeSocket([])])
         for (s, d, f, l, da) in pk:
             p = cpx.CPXPacket(function=cpx.CPXFunction(f), destination=cpx.CPXTarget(d), source=cpx.CPXTarget(s), data=bytearray(da))
             p.lastPacket = l
@@ -579,6 +678,34 @@ def search(ctx):
                 ctx.witness('reassembly', 'fragmented stream not re-assembled into the sent packet sequence',
                             {'packets': [(s, d, f, l, da.hex()) for (s, d, f, l, da) in pk], 'chunks': [c.hex() for c in chunks]}, got=got[:300], want=want[:300])
                 break
+    # (3b) a new connection on the same transport object delivers exactly the new stream (nothing left over from the old one)
+    for trial in range(60 if ctx.tier == 'quick' else 600):
+        def frames(n):
+            out, pk = [], []
+            for _ in range(n):
+                sdfl = (rng.choice(TARGETS), rng.choice(TARGETS), rng.choice(FUNCS), rng.random() < 0.5)
+                da = bytes(rng.randrange(256) for _ in range(rng.choice([0, 1, 3, 9])))
+                body = bytes([(sdfl[0] << 3) | sdfl[1] | (0x40 if sdfl[3] else 0), sdfl[2]]) + da
+                out.append(struct.pack('<H', len(body)) + body)
+                pk.append(sdfl + (da,))
+            return out, pk
+        f1, _ = frames(rng.choice([1, 2, 3]))
+        old = b''.join(f1)
+        old = old[:rng.choice([len(old), max(1, len(old) - rng.randrange(1, 4)), rng.randrange(1, len(old) + 1)])]
+        k1 = rng.randrange(0, len(f1) + 1)
+        f2, p2 = frames(rng.choice([1, 2, 3]))
+        new = b''.join(f2)
+        pts = sorted({rng.randrange(1, len(new)) for _ in range(rng.choice([0, 2, 5]))})
+        ch2 = [new[a:b] for a, b in zip([0] + pts, pts + [len(new)])]
+        want = 'ok ' + ';'.join('%d,%d,%d,%d,%s' % (s_, d_, f_, 1 if l_ else 0, hexs(da)) for (s_, d_, f_, l_, da) in p2) + ' rest=-'
+        try:
+            got = real_read_packets(ch2, len(p2), before=([old], k1))
+        except Exception as e:
+            got = 'exception ' + repr(e)
+        if got != want:
+            ctx.witness('reconnect-leftover', 'after disconnect()+connect() on the same transport the new stream is not re-assembled into exactly the packets sent on the new connection',
+                        {'old_stream': old.hex(), 'packets_read_from_old': k1, 'new_chunks': [c.hex() for c in ch2]}, got=got[:300], want=want[:300])
+            break
     # (4) router: per function FIFO, only to receivers of that function
     for trial in range(100):
         script, expect = [], {}
